@@ -9,13 +9,13 @@ import sys
 
 import numpy
 
-HEAD = ('<?xml version="1.0" encoding="utf-8"?>\n'
-        '<COLLADA xmlns="http://www.collada.org/2005/11/COLLADASchema" version="1.4.1">\n'
-        '<asset><created>2020-01-01T00:00:00</created><modified>2020-01-01T00:00:00</modified></asset>\n'
-        '<library_visual_scenes><visual_scene id="vs"><node id="n" name="n">\n')
-TAIL = ('<node id="child"><translate>1 0 0</translate></node>\n'
-        '</node></visual_scene></library_visual_scenes>\n'
-        '<scene><instance_visual_scene url="#vs"/></scene>\n</COLLADA>\n')
+XML_HEAD = ('<?xml version="1.0" encoding="utf-8"?>\n'
+            '<COLLADA xmlns="http://www.collada.org/2005/11/COLLADASchema" version="1.4.1">\n'
+            '<asset><created>2020-01-01T00:00:00</created><modified>2020-01-01T00:00:00</modified></asset>\n')
+XML_TAIL = '<scene><instance_visual_scene url="#vs"/></scene>\n</COLLADA>\n'
+LIBS_OPEN = '<library_visual_scenes><visual_scene id="vs">\n'
+LIBS_CLOSE = '</visual_scene></library_visual_scenes>\n'
+CHILD = '<node id="child"><translate>1 0 0</translate></node>\n'
 
 BAD = 99999989  # an observation that is not (close to) an integer
 
@@ -196,18 +196,41 @@ def run_case(case):
         if len(fails) < 3:
             fails.append({'clause': clause, 'site': where or site, 'detail': detail[:1500]})
 
+    nest = case.get('nest', 0)      # 0: scene root; 1: child of a scene root; 2: library node instantiated in the scene
+    inner = '<node id="n" name="n">\n' + '\n'.join(xml_of(t) for t in case['init']) + '\n' + CHILD + '</node>\n'
     if mode == 'L':
-        data = (HEAD + '\n'.join(xml_of(t) for t in case['init']) + '\n' + TAIL).encode()
-        doc = collada.Collada(io.BytesIO(data))
-        node = doc.scene.nodes[0]
+        if nest == 0:
+            body = LIBS_OPEN + inner + LIBS_CLOSE
+        elif nest == 1:
+            body = LIBS_OPEN + '<node id="wrap"><translate>1 1 1</translate>\n' + inner + '</node>\n' + LIBS_CLOSE
+        else:
+            body = ('<library_nodes>' + inner + '</library_nodes>\n' + LIBS_OPEN +
+                    '<node id="wrap"><instance_node url="#n"/></node>\n' + LIBS_CLOSE)
+        doc = collada.Collada(io.BytesIO((XML_HEAD + body + XML_TAIL).encode()))
     else:
         doc = collada.Collada()
         trs = [construct(t, form) for t in case['init']]
         child = scene.Node('child', transforms=[scene.TranslateTransform(1, 0, 0)])
-        node = scene.Node('n', children=[child], transforms=trs)
-        sc = scene.Scene('vs', [node])
+        node0 = scene.Node('n', children=[child], transforms=trs)
+        if nest == 0:
+            roots = [node0]
+        elif nest == 1:
+            roots = [scene.Node('wrap', children=[node0], transforms=[scene.TranslateTransform(1, 1, 1)])]
+        else:
+            doc.nodes.append(node0)
+            roots = [scene.Node('wrap', children=[scene.NodeNode(node0)])]
+        sc = scene.Scene('vs', roots)
         doc.scenes.append(sc)
         doc.scene = sc
+
+    def locate(d):
+        if nest == 0:
+            return d.scene.nodes[0]
+        if nest == 1:
+            return d.scene.nodes[0].children[0]
+        return d.nodes[0]
+    node = locate(doc)
+    top = doc.scene.nodes[0]
     if len(node.transforms) != len(case['init']):
         fail('node-product', 'node has %d transforms, %d were given' % (len(node.transforms), len(case['init'])))
     # ---- meaning of each transform, and the node matrix as constructed / loaded
@@ -240,6 +263,8 @@ def run_case(case):
     apply_edits(node, case['edits'], form)
     if case.get('save_via') == 'doc':
         doc.save()
+    elif nest == 1:
+        top.save()           # saving the parent saves (and recomputes) the nodes below it
     else:
         node.save()
     mats = [t.matrix for t in node.transforms]
@@ -260,7 +285,7 @@ def run_case(case):
     buf = io.BytesIO()
     doc.write(buf)
     doc2 = collada.Collada(io.BytesIO(buf.getvalue()))
-    node2 = doc2.scene.nodes[0]
+    node2 = locate(doc2)
     if len(node2.transforms) != len(final):
         fail('save-recomputes', 'reloaded node has %d transforms, the saved node had %d' % (len(node2.transforms), len(final)),
              'reload')
